@@ -1,6 +1,7 @@
 package ir
 
 import (
+	"crypto/sha256"
 	"fmt"
 	"go/constant"
 	"go/token"
@@ -83,9 +84,9 @@ type Canonicalizer struct {
 	virtualSubstitutions map[ssa.Value]ssa.Value
 	// scevTypes records the Go type of the value each substituted recurrence stands for (the
 	// recurrence itself has no width: int8 and int16 counters would render alike).
-	scevTypes map[*loop.SCEVAddRec]types.Type
-	effectiveInstrs      map[*ssa.BasicBlock][]ssa.Instruction
-	VirtualizedInstrs    map[ssa.Instruction]bool
+	scevTypes         map[*loop.SCEVAddRec]types.Type
+	effectiveInstrs   map[*ssa.BasicBlock][]ssa.Instruction
+	VirtualizedInstrs map[ssa.Instruction]bool
 }
 
 func NewCanonicalizer(policy LiteralPolicy) *Canonicalizer {
@@ -650,6 +651,21 @@ func (c *Canonicalizer) normalizeValue(v ssa.Value, preferredName ...string) str
 
 const MaxRenamerDepth = 20
 
+// MaxSCEVTextLen bounds the text of one symbolic expression in the canonical IR. The text of a
+// recurrence is substituted at every leaf that names its variable, so a counter that starts
+// from a shared expression over the enclosing counter (d := i+i; d = d+d; ... for j := d; ...)
+// multiplies the text by the number of leaves at every nesting level. Longer texts are replaced by
+// a digest of themselves: still canonical, still different for different expressions.
+const MaxSCEVTextLen = 1024
+
+func capSCEVText(s string) string {
+	if len(s) <= MaxSCEVTextLen {
+		return s
+	}
+	sum := sha256.Sum256([]byte(s))
+	return fmt.Sprintf("<scev#%x/%d>", sum[:12], len(s))
+}
+
 func (c *Canonicalizer) noteSCEVType(a *loop.SCEVAddRec, t types.Type) {
 	if c.scevTypes == nil {
 		c.scevTypes = make(map[*loop.SCEVAddRec]types.Type)
@@ -679,8 +695,21 @@ func (c *Canonicalizer) renamerFunc() loop.Renamer {
 	var stack []ssa.Value
 	depth := 0
 
+	// The same value is reached through every leaf of a shared expression (d := i+i; d = d+d; ...):
+	// render it once per top-level operand. Only complete renderings are remembered (one that hit
+	// the depth limit or a cycle depends on where it was reached from).
+	memo := make(map[ssa.Value]string)
+
 	var renamer loop.Renamer
-	renamer = func(v ssa.Value) string {
+	renamer = func(v ssa.Value) (out string) {
+		if s, ok := memo[v]; ok {
+			return s
+		}
+		defer func() {
+			if !strings.Contains(out, "<depth-limit>") && !strings.Contains(out, "<cycle>") {
+				memo[v] = out
+			}
+		}()
 		verifCountRenamer()
 		if depth >= MaxRenamerDepth {
 			return "<depth-limit>"
@@ -718,7 +747,7 @@ func (c *Canonicalizer) renamerFunc() loop.Renamer {
 			if scev, isScev := sub.(loop.SCEV); isScev {
 				// a recurrence mentioned inside another expression (the start of an inner
 				// loop's counter) needs its loop tag and width as much as a top-level one
-				return c.tagSCEV(scev, scev.StringWithRenamer(renamer))
+				return capSCEVText(c.tagSCEV(scev, scev.StringWithRenamer(renamer)))
 			}
 
 			current = sub
@@ -1281,7 +1310,7 @@ func (c *Canonicalizer) NormalizeOperand(v ssa.Value, context ssa.Instruction) s
 
 	switch operand := v.(type) {
 	case loop.SCEV:
-		return c.tagSCEV(operand, operand.StringWithRenamer(c.renamerFunc()))
+		return capSCEVText(c.tagSCEV(operand, operand.StringWithRenamer(c.renamerFunc())))
 	case *ssa.Const:
 		if c.Policy.ShouldAbstract(operand, context) {
 			return fmt.Sprintf("<%s_literal>", sanitizeType(operand.Type()))
